@@ -84,7 +84,7 @@ class LightPlatformDirectFade(LightPlatformInterface, metaclass=abc.ABCMeta):
         max_fade_ms = self.get_max_fade_ms()
         current_time = self.loop.time()
         if target_time > 0:
-            fade_ms = (target_time - current_time) / 1000.0
+            fade_ms = (target_time - current_time) * 1000.0
         else:
             fade_ms = -1
 
